@@ -90,6 +90,39 @@ Theorem all_observers_agree : forall c b sched, same c b ->
   /\ (forall t, succeeded (s_pcs (reach c sched) t) = true -> s_bound (reach c sched) = b).
 Proof. exact observers_agree. Qed.
 
+(* HTTP serving: every request announces (http, nil) whatever its own
+   attributes are (TLS or plaintext, route, protocol version, forwarding
+   headers ...): for ANY number of requests, any hook script and any schedule
+   the binding is stored at most once, every dispatched request reads
+   (http, nil), and no hook run follows the successful one.  (The harness runs
+   real requests with differing attributes as the callers of this model.) *)
+Definition http_nil : binding := (2, 0)%N.
+Definition http_cfg (hook : bool) (n : nat) (outcomes : list bool) : cfg :=
+  {| c_hook := hook; c_binds := repeat http_nil n; c_outcomes := outcomes |}.
+
+Theorem http_requests_bind_once : forall hook n outcomes sched,
+  let s := reach (http_cfg hook n outcomes) sched in
+  length (s_commits s) <= 1
+  /\ (s_bound s = unbound \/ s_bound s = http_nil)
+  /\ (forall t v, In (t, v) (s_reads s) -> v = http_nil)
+  /\ (forall r, In r (s_runs s) -> h_bind r = http_nil)
+  /\ oks_only_head (s_outs s).
+Proof.
+  intros hook n outcomes sched s.
+  assert (Hs : same (http_cfg hook n outcomes) http_nil).
+  { intros t Ht. unfold bind_of, nthreads, http_cfg in *. cbn [c_binds] in *.
+    rewrite repeat_length in Ht. revert t Ht. induction n as [|n IH]; intros t Ht; [lia|].
+    destruct t; cbn; auto. apply IH. lia. }
+  destruct (commit_once _ _ sched Hs) as [A B]. destruct (observers_agree _ _ sched Hs) as [C _].
+  repeat split; auto.
+  - intros r Hr. destruct (hook_sees_other _ sched r Hr) as [_ E]. rewrite E.
+    unfold bind_of, http_cfg. cbn [c_binds].
+    pose proof (runs_tid _ sched r Hr) as L. unfold nthreads, http_cfg in L. cbn [c_binds] in L.
+    rewrite repeat_length in L. clear - L. revert L. generalize (h_tid r).
+    induction n as [|n IH]; intros t L; [lia|]. destruct t; cbn; auto. apply IH. lia.
+  - apply (ok_run_is_last _ _ sched Hs).
+Qed.
+
 (* Nobody (successful caller, outside observer, the hook itself) observes a
    binding that was not stored before; the hook never sees its own. *)
 Theorem no_kind_observed_before_commit : forall c sched v,
